@@ -221,3 +221,16 @@ func EncryptedAssertionRaw(spec *EncSpec, dataB64, keyB64 string) string {
 	b.WriteString(`</saml:EncryptedAssertion>`)
 	return b.String()
 }
+
+// EncryptCBCRaw CBC-encrypts raw (a multiple of the block size, no padding added) and prepends the IV.
+func EncryptCBCRaw(key, raw []byte) []byte {
+	blk, err := aes.NewCipher(key)
+	if err != nil {
+		panic(err)
+	}
+	iv := make([]byte, blk.BlockSize())
+	rand.Read(iv)
+	out := make([]byte, len(raw))
+	cipher.NewCBCEncrypter(blk, iv).CryptBlocks(out, raw)
+	return append(iv, out...)
+}
